@@ -7,8 +7,8 @@ from auditok import AudioRegion
 
 ID = "C16"
 LEVEL = "exploration"
-TIERS = {"quick": {"shards": 16, "budget_s": 25, "random": 6000, "exh_len": 5},
-         "thorough": {"shards": 16, "budget_s": 420, "random": 300000, "exh_len": 7}}
+TIERS = {"quick": {"shards": 16, "budget_s": 120, "random": 6000, "exh_len": 5},
+         "thorough": {"shards": 16, "budget_s": 900, "random": 300000, "exh_len": 7}}
 RULE = ("region[a:b], region.seconds[a:b], region.millis[a:b], len(), duration on real AudioRegion objects (lengths 0..40 "
         "samples, widths 1/2/4, 1-4 channels, rates 1..48000).  Oracle REGION: the region is a Python list of multi-channel "
         "sample byte-strings and sample indexing must equal list slicing for every combination of positive/negative/None/"
